@@ -2,12 +2,14 @@
 Theorems: Properties/C09.v (Model/Env.v).  Correspondence: the taskctl binary on generated projects (engine `cli`)."""
 import itertools
 import json
+import re
 import os
 import vlib
 import clilib
 
 TRUSTED = [
     "model Model/Env.v: the expression that builds the job environment (Run / CompileTask / buildTask / runStage) and Execute's hand-over to the interpreter; containers as association lists",
+    "model Model/EnvFile.v: bufio.ScanLines + strings.SplitN(line, \"=\", 2) of utils.ReadEnvFile over the file's bytes (lines below 64 KiB)",
     "mvdan.cc/sh expand.ListEnviron (modelled: after the repair no name is defined twice in what it receives)",
     "python driver running the built binary with a controlled parent environment (lib/clilib.py)",
 ]
@@ -115,8 +117,48 @@ def sequence_jobs(ctx, first_id, workdir):
     return jobs
 
 
+EF_NAMES = ["A", "B", "AB"]
+
+
+def envtext_jobs(ctx, first_id):
+    """the env_file level from the file's TEXT: NAME=value lines whose values contain '=', '#', spaces or nothing, names defined twice,
+    blank lines, lines without '=', names with a leading '#' or blank, CRLF line ends, a last line without LF"""
+    rng = vlib.rng_for(ctx.seed, "C09envtext")
+    corpus = ["A=1=2\n", "A=\n", "A\nB=x\n", "A=1\nA=2\n", "A=1\r\nB=2\r\n", "A=1\n\n\nB= x y \n", "#A=1\nB=#2\n", "A=x", "A=x\nB=y=z", " A=1\nB =2\nAB=3\n",
+              "AB=A=B\nA=AB\n", "A=1\n=2\nB=3\n", "\n", "", "A==\n", "B=1\nB\nB=\n"]
+    texts = list(corpus)
+    for _ in range(120 if ctx.tier == "thorough" else 40):
+        ls = []
+        for _ in range(rng.randrange(1, 6)):
+            r = rng.random()
+            val = "".join(rng.choice("ab=# x:") for _ in range(rng.randrange(0, 6)))
+            name = rng.choice(EF_NAMES + ["C"])
+            if r < 0.6:
+                l = name + "=" + val
+            elif r < 0.7:
+                l = rng.choice(["#", " ", ""]) + name + rng.choice(["", " "]) + "=" + val
+            elif r < 0.8:
+                l = ""
+            elif r < 0.9:
+                l = name + val.replace("=", "")
+            else:
+                l = val
+            ls.append(l)
+        eol = rng.choice(["\n", "\n", "\r\n"])
+        t = eol.join(ls) + (eol if rng.random() < 0.7 else "")
+        texts.append(t)
+    jobs = []
+    for t in texts:
+        doc = {"tasks": {"t": {"command": ['echo "EF|%s|" >> "$PROJ/out"' % "|".join("${%s-UNSET}" % n for n in EF_NAMES)], "env_file": "envfile"}},
+               "pipelines": {"p": [{"task": "t"}]}}
+        mode = rng.choice(["direct", "stage"])
+        jobs.append({"id": first_id + len(jobs), "files": {"cfg.json": clilib.jcfg(doc), "envfile": t}, "argv": ["-c", "cfg.json", "--raw", "t" if mode == "direct" else "p"],
+                     "env": {}, "keep": ["out"], "kind": "envtext", "mode": mode, "text": t})
+    return jobs
+
+
 HEADER = """From Coq Require Import List Arith NArith Bool. Import ListNotations.
-From TaskctlV Require Import Model.Stage Model.Env Corr.EnvCorr.
+From TaskctlV Require Import Model.Stage Model.Env Corr.EnvCorr Model.SetFlag Model.EnvFile Corr.EnvFileCorr.
 """
 FOOTER = """
 Definition BAD := Eval vm_compute in map fst (filter (fun c => negb (snd c)) cases).
@@ -129,7 +171,8 @@ def run(ctx):
     res.rule = ("environment: every non-empty subset (63) of {parent, context env, env_file, task env, stage env, variation} defining X, with values "
                 "increasing and decreasing with precedence, run directly and as a stage; plus a name only the parent defines and TASK_NAME.  "
                 "directory: every subset of {stage dir, task dir (templated), context dir} x invoked from the project root / a sub-directory x "
-                "direct / stage; pwd of command, before, after and condition.  distinct = distinct case; non-trivial = at least two levels define X "
+                "direct / stage; pwd of command, before, after and condition.  env_file texts: NAME=value lines with values over {a b = # space x :}, repeated names, "
+                "blank lines, lines without '=', names with a leading # or blank, LF / CRLF, unterminated last line.  distinct = distinct case; non-trivial = at least two levels define X "
                 "(env) or at least one dir level is set (dir).")
     res.exhaustive = True
     if ctx.replay_cases:
@@ -138,6 +181,7 @@ def run(ctx):
         jobs = env_jobs(ctx)
         jobs += dir_jobs(ctx, len(jobs), ctx.workdir)
         jobs += sequence_jobs(ctx, len(jobs), ctx.workdir)
+        jobs += envtext_jobs(ctx, len(jobs))
     out = clilib.run_cli(ctx.workdir, jobs)
     items = []
     index = {}
@@ -157,6 +201,19 @@ def run(ctx):
                 res.violations.append({"class": None, "what": ("a task run directly and as a stage in one process: commands / hooks did not run in the directory of THIS use" if j["kind"] == "seq-dir"
                                                                else "parallel stages without any env: a command or hook saw another task's TASK_NAME"),
                                        "case": j, "observed": got})
+            continue
+        if j["kind"] == "envtext":
+            def bl(t):
+                return vlib.clist(list(t.encode()), str)
+            m = re.match(r"^EF\|(.*)\|\n?$", r["files"].get("out") or "", re.S)
+            vals = m.group(1).split("|") if m else []
+            if len(vals) != len(EF_NAMES):
+                vals = ["<the command's output is missing>"] * len(EF_NAMES)
+            k = len(items)
+            index[k] = (j, "env_file text")
+            items.append("(%d%%N, envtext_ok %s %s)" % (k, bl(j["text"]), vlib.clist(list(zip(EF_NAMES, vals)),
+                         lambda nv: "(%s, %s)" % (bl(nv[0]), "None" if nv[1] == "UNSET" else "(Some %s)" % bl(nv[1])))))
+            res.nontrivial_keys.add(json.dumps(j["text"]))
             continue
         lines = dict(l.split("=", 1) if "=" in l.split(":", 1)[0] else l.split(":", 1) for l in (r["files"].get("out") or "").split("\n") if l)
         I = Intern()
@@ -201,8 +258,9 @@ def run(ctx):
         if (j["id"], j["kind"]) in seen:
             continue
         seen.add((j["id"], j["kind"]))
-        what = ("a command saw a value for a name other than the one of the highest level defining it (or a pass-through / TASK_NAME was wrong)"
-                if j["kind"] == "env" else "a command / hook / condition ran in a directory other than stage dir > task dir > context dir > start directory")
+        what = ("env_file: a command did not see exactly what the file's NAME=value lines define (value = the rest of the line after the first '=', later lines win, other lines define nothing)"
+                if j["kind"] == "envtext" else "a command saw a value for a name other than the one of the highest level defining it (or a pass-through / TASK_NAME was wrong)"
+                if j["kind"] in ("env", "envtext") else "a command / hook / condition ran in a directory other than stage dir > task dir > context dir > start directory")
         res.violations.append({"class": None, "what": what, "case": j, "observed": out[j["id"]], "detail": "first wrong: " + key})
     res.samples = [jobs[10], jobs[-3]]
     return res
